@@ -88,6 +88,7 @@ static long g_pct_low = -1;
 static thread_fn g_fn = nullptr; static void *g_arg = nullptr;
 static uintptr_t g_base = 0;
 static bool g_stop_all = false;
+static abort_hook g_abort_hook = nullptr;
 static bool g_hot = false;              // the event at this scheduling point touches library static storage or is an atomic/sync op
 
 // vector clocks
@@ -371,6 +372,7 @@ static void *thread_main(void *p) {
     wait_on(&TH[tid].go, 0);            // start barrier: first release comes from the scheduler
     TH[tid].abort_armed = true;
     if (setjmp(TH[tid].abort_jmp) == 0) g_fn(tid, g_arg);
+    else { t_in_sut = 0; t_in_rt = 0; if (g_abort_hook) g_abort_hook(tid, g_arg); }
     TH[tid].abort_armed = false;
     t_in_sut = 0;
     TH[tid].state = ST_FINISHED;
@@ -436,6 +438,18 @@ void run_concurrent(const Config &cfg, thread_fn fn, void *arg, Result &out) {
     g_res = nullptr; g_cfg = nullptr;
 }
 
+static thread_local int t_af_at = 0, t_af_n = 0; static thread_local bool t_af_fired = false;
+void arm_alloc_fault(int k) { t_af_at = k; t_af_n = 0; t_af_fired = false; }
+bool alloc_fault_fired() { return t_af_fired; }
+void set_abort_hook(abort_hook h) { g_abort_hook = h; }
+bool run_sequential(thread_fn fn, int tid, void *arg) {
+    Th &me = TH[MAIN_TID];
+    me.abort_armed = true; me.aborted = false;
+    bool ok = true;
+    if (setjmp(me.abort_jmp) == 0) fn(tid, arg); else { ok = false; t_in_sut = 0; t_in_rt = 0; if (g_abort_hook) g_abort_hook(tid, arg); }
+    me.abort_armed = false;
+    return ok;
+}
 void enter_sut() { t_in_sut++; }
 void leave_sut() { if (t_in_sut > 0) t_in_sut--; }
 bool thread_aborted() { return t_tid >= 0 && TH[t_tid].aborted; }
@@ -572,8 +586,13 @@ static void block_del(void *p) {
     RtGuard rg_;
     for (size_t i = 0; i < g_blocks.size(); i++) if (g_blocks[i].lo == (uintptr_t)p) { shadow_clear_range(g_blocks[i].lo, g_blocks[i].n); g_blocks.erase(g_blocks.begin() + (long)i); return; }
 }
-void *__wrap_malloc(size_t n) { on_plain_point(PC); void *p = __real_malloc(n); block_add(p, n); return p; }
-void *__wrap_calloc(size_t a, size_t b) { on_plain_point(PC); void *p = __real_calloc(a, b); block_add(p, a * b); return p; }
+static bool alloc_fails() {
+    if (!active() || t_af_at <= 0) return false;
+    if (++t_af_n == t_af_at) { t_af_fired = true; return true; }
+    return false;
+}
+void *__wrap_malloc(size_t n) { on_plain_point(PC); if (alloc_fails()) { errno = ENOMEM; return nullptr; } void *p = __real_malloc(n); block_add(p, n); return p; }
+void *__wrap_calloc(size_t a, size_t b) { on_plain_point(PC); if (alloc_fails()) { errno = ENOMEM; return nullptr; } void *p = __real_calloc(a, b); block_add(p, a * b); return p; }
 void *__wrap_realloc(void *o, size_t n) { on_plain_point(PC); block_del(o); void *p = __real_realloc(o, n); block_add(p, n); return p; }
 void __wrap_free(void *p) { on_plain_point(PC); block_del(p); __real_free(p); }
 char *__wrap_strdup(const char *s) { size_t n = __real_strlen(s) + 1; on_range(s, n, false, PC); char *p = __real_strdup(s); block_add(p, n); return p; }
